@@ -1,5 +1,30 @@
 import Driver.Common
-open Driver
+import GIV.Model.Diff
+open GIV GIV.Diff Driver
 
-/-- stub: replaced by the group's model driver. -/
-def main : IO Unit := run (fun _ => "bad-op")
+def showOB : Option Bytes → String
+  | none => "panic"
+  | some b => toHex b
+
+def b01 (b : Bool) : String := if b then "1" else "0"
+
+/-- `diff <hexOldName> <hexNewName> <hexOld> <hexNew>` -> output bytes in hex, or `panic`.
+`chk <hexOld> <hexNew>` -> the model's own applier on the model's hunks: `A=<apply ok> U=<unapply ok> H=<#hunks>`. -/
+def step (line : String) : String :=
+  match line.splitOn " " with
+  | ["diff", n1, n2, a, b] =>
+    match fromHex n1, fromHex n2, fromHex a, fromHex b with
+    | some n1, some n2, some a, some b => showOB (diff n1 a n2 b)
+    | _, _, _, _ => "bad-op"
+  | ["chk", a, b] =>
+    match fromHex a, fromHex b with
+    | some a, some b =>
+      match diffHunks (lines a) (lines b) with
+      | none => "panic"
+      | some hs =>
+        "A=" ++ b01 (apply (lines a) hs == some (lines b)) ++ " U=" ++ b01 (unapply (lines b) hs == some (lines a)) ++
+          " H=" ++ toString hs.length
+    | _, _ => "bad-op"
+  | _ => "bad-op"
+
+def main : IO Unit := run step
